@@ -14,3 +14,7 @@ classify = H.classify
 
 def gen_cases(ctx):
     return H.gen_cases(ctx, "C27")
+
+
+def run(ctx):
+    H.run(ctx, "C27")
